@@ -9,7 +9,8 @@ from .common import viol
 ID = "C14"
 LEVEL = "exploration"
 BATCH = 8
-RULE = ("COMPLETE enumeration of configurations through the public API against the simulated inverter: every ET model "
+RULE = ("(Every third configuration runs over Modbus/TCP, half of those against a device announcing a wrong MBAP "
+        "message length: a full-length answer stays full-length.)  COMPLETE enumeration of configurations through the public API against the simulated inverter: every ET model "
         "tag of model.py plus an untagged serial x rated power {3000, 15000, 25000, 30000} (serial power codes 003K, "
         "015K, 025K, 29K9 so that the '25KET'/'29K9ET' substrings occur) x every combination of supported/refused "
         "optional blocks {battery, battery2, meter basic/extended/extended-2, MPPT, eco-mode-v2, peak shaving}; every "
